@@ -28,7 +28,7 @@ func init() {
 
 // tokenFact: alt contains validToken(s, <m>.A.Token, source) with the given sign.
 func (h *handler) tokenFact(w *World, alt *Alt, sign bool) bool {
-	vt := w.P.Func("(*Server).validToken")
+	vt := w.tokenPredicate()
 	argsTok := w.P.Field("krpc", "MsgArgs", "Token")
 	return alt.Has("b", sign, func(t *Term) bool {
 		if !isCall(t, vt) || len(t.Args) != 3 {
@@ -159,8 +159,12 @@ func c10r1(w *World, rr *RuleRun) {
 	// the handlers' predicate is the token server's verdict on the same token and source, computed in
 	// this call: it answers true only under tokenServer.ValidToken(token, addr) = true (no remembered
 	// verdicts, no second way to say yes)
-	vt := w.P.Func("(*Server).validToken")
+	vt := w.tokenPredicate()
 	vtok := w.P.Func("(*tokenServer).ValidToken")
+	if vt == vtok {
+		rr.ObligeTrivial(shortFuncName(vtok), "validToken answers true only under tokenServer.ValidToken(token, addr) = true for its own arguments", w.P.Pos(vtok.Pos()), true, "the handlers call the token server's predicate directly")
+		return
+	}
 	tokP, addrP := w.TS.Of(vt.Params[1]), w.TS.Of(vt.Params[2])
 	tsum := w.FE.Summary(vt, 0, "true", 0)
 	if len(tsum) == 0 {
@@ -480,7 +484,7 @@ func c10r3(w *World, rr *RuleRun) {
 
 func c10r4(w *World, rr *RuleRun) {
 	h := w.handler()
-	createToken := w.P.Func("(*Server).createToken")
+	createToken := w.tokenIssuer()
 	retToken := w.P.Field("krpc", "Return", "Token")
 	peerStore := w.P.Field("", "ServerConfig", "PeerStore")
 	n := 0
@@ -539,4 +543,21 @@ func storedFromCallTo(a *ssa.Alloc, fn *ssa.Function) bool {
 		}
 	}
 	return false
+}
+
+// tokenPredicate / tokenIssuer: the functions the handlers call to check and to create a token - the
+// Server's forwarding wrappers when they exist, else the token server's own methods (same shapes:
+// receiver, token, address / receiver, address).
+func (w *World) tokenPredicate() *ssa.Function {
+	if f := w.P.FuncOpt("(*Server).validToken"); f != nil {
+		return f
+	}
+	return w.P.Func("(*tokenServer).ValidToken")
+}
+
+func (w *World) tokenIssuer() *ssa.Function {
+	if f := w.P.FuncOpt("(*Server).createToken"); f != nil {
+		return f
+	}
+	return w.P.Func("(tokenServer).CreateToken")
 }
